@@ -61,6 +61,9 @@ class ConcH:
             out[idx] = complex(self.env['%sr_%s' % (name, tag)], self.env['%si_%s' % (name, tag)])
         return out
 
+    def angle(self, wname):
+        return 2 * math.atan(float(self.env[wname]))
+
     def frac(self, a, b=1):
         return a / b
 
@@ -150,7 +153,7 @@ class ConcH:
         self.records.append({'label': label, 'kind': kind, 'ok': bool(ok), 'lhs': _ser(lhs), 'rhs': _ser(rhs),
                              'note': note})
 
-    def eq(self, label, a, b, scale=None, rtol=None):
+    def eq(self, label, a, b, scale=None, rtol=None, tv2=True):
         a = np.asarray(a)
         b = np.asarray(b)
         if self.cfg.get('__twin__'):
